@@ -91,7 +91,7 @@ CreateBulk == \E t \in {"junction", "pipe", "valve", "sink", "flow_control", "he
                  pat \in {"scalar", "list", "partial"} :
     LET l0 == IF im = "auto" THEN NextFree(net, t) ELSE IF im = "free" THEN 11 ELSE Max(TblLabs(net, t) \cup {0})
         rows == BulkRows(t, n, a, b, IF badpos > n THEN 0 ELSE badpos, l0)
-        ok == /\ (t = "junction" \/ badpos = 0 \/ badpos > n)
+        ok == /\ (t = "junction" \/ badpos = 0 \/ badpos > n \/ 9 \in JLabs(net))      \* the odd reference 9 usually does not exist
               /\ (im = "auto" \/ \A k \in 0..(n - 1) : FreeLab(net, t, l0 + k))      \* explicit indices must all be free
     IN /\ net' = (IF ~ok THEN net ELSE IF t = "junction" THEN [net EXCEPT !.J = @ \o rows]
                   ELSE IF t \in NodeElTables THEN [net EXCEPT !.N = @ \o rows] ELSE [net EXCEPT !.E = @ \o rows])
